@@ -578,7 +578,20 @@ def _module_sigs(tree):
 
 
 def normalise(tree):
-    """Apply N1-N5 to every outermost function of the module (module/class level statements are left alone)."""
+    """Apply the N rules to every outermost function of the module until nothing changes (module/class level statements are
+    left alone).  One rule can enable another (an early exit turned into an else arm makes the test swappable), so the pass is
+    repeated to a fixed point: the canonical form must not depend on how often the front-end ran."""
+    prev = None
+    for _ in range(4):
+        _normalise_once(tree)
+        cur = ast.dump(tree)
+        if cur == prev:
+            break
+        prev = cur
+    return tree
+
+
+def _normalise_once(tree):
     msigs = _module_sigs(tree)
     for qual, fn in outer_functions(tree):
         counts = {}
